@@ -160,7 +160,7 @@ async fn start_tee(upstream: std::net::SocketAddr) -> Result<Tee> {
 
 const BASE: &str = "Zq7Xk2Vn9Rt4Lm8Wp3";
 
-async fn run_kind(kind: &str, backend: Backend, work: &Path) -> Value {
+async fn run_kind(kind: &str, backend: Backend, work: &Path, logs_dir: &Path) -> Value {
     let mut fails: Vec<Value> = vec![];
     let res: Result<Value> = async {
         let _ = std::fs::remove_dir_all(work);
@@ -240,6 +240,26 @@ async fn run_kind(kind: &str, backend: Backend, work: &Path) -> Value {
         let dev2 = Dev::open(&work.join("client2"), backend, account_id, vkit::acct::password()).await?;
         let d2 = Device::connect(dev2, 1, &tee.origin).await?;
         let _ = d2.sync().await;
+        // a conflict that is resolved by auto merge: device 2 deletes the
+        // secret while device 1 updates it later; then both sync
+        {
+            clock::configure(1, -3_600_000_000_000, 1_000_001);
+            clock::set_device(1);
+            let mut a = d2.account.lock().await;
+            let _ = a.delete_secret(&id, AccessOptions { folder: Some(*default.id()), ..Default::default() }).await;
+        }
+        {
+            clock::set_device(0);
+            let m4 = format!("{}Four", marker);
+            let (meta, secret) = gen::secret(kind, 1, &m4);
+            let mut a = d1.account.lock().await;
+            a.update_secret(&id, meta, Some(secret), AccessOptions { folder: Some(*default.id()), ..Default::default() }).await?;
+            markers.push(("secret_updated_while_other_device_deleted_it".into(), m4.into_bytes()));
+        }
+        let _ = d1.sync().await;
+        let _ = d2.sync().await;
+        let _ = d1.sync().await;
+        let _ = d2.sync().await;
         d1.close().await;
         d2.close().await;
         server.stop().await;
@@ -257,6 +277,11 @@ async fn run_kind(kind: &str, backend: Backend, work: &Path) -> Value {
         std::fs::write(work.join("client").join("planted-control.txt"), format!("xx{}yy", String::from_utf8_lossy(&markers[0].1)))?;
         // collect haystacks
         let mut hay: Vec<(String, Vec<u8>)> = vec![("wire:tee".to_string(), wire.clone())];
+        for p in fsutil::walk_files(logs_dir) {
+            if let Ok(b) = std::fs::read(&p) {
+                hay.push((format!("logs/{}", p.file_name().unwrap().to_string_lossy()), b));
+            }
+        }
         for root in ["client", "client2", "server"] {
             for p in fsutil::walk_files(&work.join(root)) {
                 if let Ok(b) = std::fs::read(&p) {
@@ -288,6 +313,8 @@ async fn run_kind(kind: &str, backend: Backend, work: &Path) -> Value {
                         }
                         let place = if hname.starts_with("wire") {
                             "wire".to_string()
+                        } else if hname.starts_with("logs/") {
+                            "log_file".to_string()
                         } else {
                             let top = hname.split('/').next().unwrap_or("");
                             let file = hname.rsplit('/').next().unwrap_or("");
@@ -349,9 +376,15 @@ fn main() {
     if pool::worker_stage().is_some() {
         let wd = fsutil::WorkDir::new("leakx-w");
         let rt = rt();
+        // the real file logger at its default level (what the apps, the
+        // CLI and the extension helper install): log files are storage too
+        std::env::remove_var("RUST_LOG");
+        let logs_dir = wd.path().join("logs");
+        std::fs::create_dir_all(&logs_dir).unwrap();
+        let _ = sos_logs::Logger::new_dir(logs_dir.clone(), "saveoursecrets.log".to_string()).init_file_subscriber(None);
         pool::worker_loop(|idx| {
             let (k, b) = &its[idx];
-            rt.block_on(run_kind(k, *b, &wd.path().join("w")))
+            rt.block_on(run_kind(k, *b, &wd.path().join("w"), &logs_dir))
         });
     }
     let mut run = Run::new("C03", "model_checking", &args);
@@ -378,7 +411,7 @@ fn main() {
                 for f in v["fails"].as_array().unwrap() {
                     run.fail(f["sig"].as_str().unwrap(), f["what"].as_str().unwrap(), json!({"engine":"leakx","kind": its[i].0, "backend": its[i].1.name(), "detail": f["detail"]}));
                 }
-                push_sample(&mut samples, json!({"kind": its[i].0, "backend": its[i].1.name(), "history": ["create secret (marker values)", "update secret", "create folder + description", "attachment (note kind)", "export backup archive", "export folder", "sync through tee", "create + sync", "second device pulls"], "markers": v["markers"], "files_and_streams_scanned": v["haystacks"]}), 4);
+                push_sample(&mut samples, json!({"kind": its[i].0, "backend": its[i].1.name(), "history": ["create secret (marker values)", "update secret", "create folder + description", "attachment (note kind)", "export backup archive", "export folder", "sync through tee", "create + sync", "second device pulls", "device 2 deletes / device 1 updates the same secret", "auto merge on both"], "markers": v["markers"], "files_and_streams_scanned": v["haystacks"]}), 4);
             }
         }
     }
